@@ -78,6 +78,9 @@ func (m *Mutex) Unlock() {
 	}
 	simrt.RaceRelease(m)
 	m.locked = false
+	// a second scheduling point right after the release: what the caller does next (typically
+	// with data it read under the lock) can be overtaken by the next lock holder
+	simrt.Yield("unlocked")
 }
 
 // ---------------------------------------------------------------------------------------------
@@ -140,6 +143,7 @@ func (rw *RWMutex) RUnlock() {
 	if rw.announced && rw.readerWait > 0 {
 		rw.readerWait--
 	}
+	simrt.Yield("unlocked")
 }
 
 func (rw *RWMutex) Lock() {
@@ -196,6 +200,7 @@ func (rw *RWMutex) Unlock() {
 	rw.queued = 0
 	rw.gen++
 	rw.w.locked = false
+	simrt.Yield("unlocked")
 }
 
 func (rw *RWMutex) RLocker() Locker { return (*rlocker)(rw) }
